@@ -21,17 +21,21 @@
 (* the conformance check, which compares it with the sequence of calls     *)
 (* recorded from the real library (MaintConf.tla).                         *)
 (* Deviation switches: RepackCommitBeforeFsync, RepackUnlinkOldFirst,      *)
-(* SeekBackWithoutTruncate, DeleteIndexFirst.                              *)
+(* SeekBackWithoutTruncate, DeleteIndexFirst, RepackNoIntermediateCommit   *)
+(* (the switch to the temporary pack is only staged), ImportFsyncOnlyLast  *)
+(* (only the last batch of an import is fsynced).                          *)
 (***************************************************************************)
 EXTENDS Integers, Sequences, FiniteSets, TLC
 
 CONSTANTS Keys, Cases,
           RepackCommitBeforeFsync, RepackUnlinkOldFirst, SeekBackWithoutTruncate, DeleteIndexFirst,
+          RepackNoIntermediateCommit, ImportFsyncOnlyLast,
           AllowPower
 
 Tmp == 0 - 1                 \* the temporary pack id of repack
-PackIds == {Tmp, 0, 1}
-MaxIno == 6
+MaxPack == 2
+PackIds == {Tmp} \cup 0..MaxPack
+MaxIno == 7
 
 VARIABLES ino,      \* [1..MaxIno -> [content : Seq, synced : Nat]]
           nxt,      \* next free inode
@@ -71,6 +75,7 @@ RepackPack(p, R, exists) ==
         sync == IF RepackCommitBeforeFsync THEN <<I("flush", 0, 0)>> ELSE <<I("flush", 0, 0), I("fsync", 0, 0)>>
         swap == IF RepackUnlinkOldFirst
                    THEN <<I("unlinkpack", p, 0), IS(rest \cup toTmp), I("commit", 0, 0)>>
+                   ELSE IF RepackNoIntermediateCommit THEN <<IS(rest \cup toTmp), I("unlinkpack", p, 0)>>
                    ELSE <<IS(rest \cup toTmp), I("commit", 0, 0), I("unlinkpack", p, 0)>>
     IN IF rs = <<>>
           THEN <<(IF exists THEN <<I("unlinkpack", p, 0)>> ELSE <<>>), R>>
@@ -90,33 +95,81 @@ DeleteProg(pre, ks) ==      \* ks: the requested keys in request order
         rows == <<IS({r \in pre.idx : r.k \notin S}), I("commit", 0, 0)>>
     IN IF DeleteIndexFirst THEN rows \o unl ELSE unl \o rows
 
-(* add_objects_to_pack(ks, no_holes, read once) into pack 0 *)
-RECURSIVE ToPackSteps(_, _, _, _)
-ToPackSteps(ks, noholes, known, pos) ==   \* <<instructions, new rows>>
-    IF ks = <<>> THEN <<<<>>, {}>>
-    ELSE LET k == Head(ks) IN
-         IF noholes /\ k \in known
-            THEN LET r == ToPackSteps(Tail(ks), noholes, known, pos)
-                 IN << <<I("buf", k, 0), I("flush", 0, 0)>> \o (IF SeekBackWithoutTruncate THEN <<I("seekback", 0, 0)>> ELSE <<I("trunc1", 0, 0)>>) \o r[1], r[2] >>
-            ELSE LET r == ToPackSteps(Tail(ks), noholes, IF noholes THEN known \cup {k} ELSE known, pos + 1)
-                 IN << <<I("buf", k, 0)>> \o r[1], {[k |-> k, p |-> 0, pos |-> pos]} \cup r[2] >>
+(* ---- writing to packs: add_objects_to_pack, pack_all_loose, import_objects ---- *)
+(* A case carries sz (size of each content, in units), target (pack_size_target, same units) and budget (import's
+   target_memory_bytes).  Pack choice (container.py:246-282): the first pack that does not exist or whose size, taken
+   from tell() before every object, is below the target.  Packs 0..MaxPack are modelled: the last one is never full. *)
+RECURSIVE SumSz(_, _)
+SumSz(s, sz) == IF s = <<>> THEN 0 ELSE sz[Head(s)] + SumSz(Tail(s), sz)
+RECURSIVE FirstFreeFrom(_, _, _, _)
+FirstFreeFrom(p, bytes, exists, T) == IF p = MaxPack \/ p \notin exists \/ bytes[p] < T THEN p ELSE FirstFreeFrom(p + 1, bytes, exists, T)
+FirstFree(bytes, exists, T) == FirstFreeFrom(0, bytes, exists, T)
 
 RECURSIVE OrIgnore(_, _)
 OrIgnore(R, new) == IF new = {} THEN R
-                    ELSE LET r == CHOOSE x \in new : \A y \in new : x.pos <= y.pos
+                    ELSE LET r == CHOOSE x \in new : \A y \in new : <<x.p, x.pos>> = <<y.p, y.pos>> \/ x.p < y.p \/ (x.p = y.p /\ x.pos < y.pos)
                          IN OrIgnore(IF r.k \in KeysOf(R) THEN R ELSE R \cup {r}, new \ {r})
 
-AddToPackProg(pre, ks, noholes) ==
-    LET steps == ToPackSteps(ks, noholes, KeysOf(pre.idx), Len(pre.packs[0]) + 1)
-    IN <<I(IF 0 \in pre.exists THEN "open" ELSE "create", 0, 0)>> \o steps[1]
-       \o (IF noholes THEN <<I("flush", 0, 0), I("truncend", 0, 0)>> ELSE <<>>)      \* the final pack_handle.truncate()
-       \o <<IS(OrIgnore(pre.idx, steps[2])), I("flush", 0, 0), I("fsync", 0, 0), I("closefile", 0, 0), I("commit", 0, 0)>>
+(* the objects written while one pack is open (container.py:1679-1795): [ins, rows, rest, known, bytes, done] *)
+RECURSIVE Seg(_, _, _, _, _, _, _, _)
+Seg(ks, noholes, known, pos, bytes, p, T, sz) ==
+    IF ks = <<>> \/ (p < MaxPack /\ bytes >= T)
+       THEN [ins |-> <<>>, rows |-> {}, rest |-> ks, known |-> known, bytes |-> bytes, done |-> <<>>]
+    ELSE LET k == Head(ks) IN
+         IF noholes /\ k \in known
+            THEN LET r == Seg(Tail(ks), noholes, known, pos, bytes, p, T, sz)
+                 IN [r EXCEPT !.ins = <<I("buf", k, 0), I("flush", 0, 0)>>
+                                       \o (IF SeekBackWithoutTruncate THEN <<I("seekback", 0, 0)>> ELSE <<I("trunc1", 0, 0)>>) \o @]
+            ELSE LET r == Seg(Tail(ks), noholes, IF noholes THEN known \cup {k} ELSE known, pos + 1, bytes + sz[k], p, T, sz)
+                 IN [r EXCEPT !.ins = <<I("buf", k, 0)>> \o @, !.rows = {[k |-> k, p |-> p, pos |-> pos]} \cup @, !.done = <<k>> \o @]
 
-PackAllProg(pre, order, perpack) ==
-    LET rows == {[k |-> order[i], p |-> 0, pos |-> Len(pre.packs[0]) + i] : i \in DOMAIN order}
-    IN <<I(IF 0 \in pre.exists THEN "open" ELSE "create", 0, 0)>> \o [i \in DOMAIN order |-> I("buf", order[i], 0)]
-       \o <<IS(pre.idx \cup rows), I("flush", 0, 0), I("fsync", 0, 0), I("closefile", 0, 0), I("commit", 0, 0)>>
-       \o (IF perpack THEN [i \in DOMAIN order |-> I("unlinkloose", order[i], 0)] ELSE <<>>)
+(* one pack after the other until everything is written: per pack  open, objects, [final truncate], INSERT, flush,
+   fsync, close, [COMMIT], [unlink what this pack received].  st = [rows, bytes, lens, exists, known] is threaded
+   through (an import calls this once per batch with the same transaction). *)
+RECURSIVE PackSegs(_, _, _, _, _, _, _)
+PackSegs(ks, noholes, st, commitEach, unlinkEach, T, sz) ==
+    IF ks = <<>> THEN [ins |-> <<>>, st |-> st]
+    ELSE LET p == FirstFree(st.bytes, st.exists, T)
+             s == Seg(ks, noholes, st.known, st.lens[p] + 1, st.bytes[p], p, T, sz)
+             nrows == OrIgnore(st.rows, s.rows)
+             r == PackSegs(s.rest, noholes,
+                           [rows |-> nrows, bytes |-> [st.bytes EXCEPT ![p] = s.bytes],
+                            lens |-> [st.lens EXCEPT ![p] = @ + Cardinality(s.rows)], exists |-> st.exists \cup {p}, known |-> s.known],
+                           commitEach, unlinkEach, T, sz)
+         IN [r EXCEPT !.ins = <<I(IF p \in st.exists THEN "open" ELSE "create", p, 0)>> \o s.ins
+                               \o (IF noholes THEN <<I("flush", 0, 0), I("truncend", 0, 0)>> ELSE <<>>)   \* the final pack_handle.truncate()
+                               \o <<IS(nrows), I("flush", 0, 0), I("fsync", 0, 0), I("closefile", 0, 0)>>
+                               \o (IF commitEach THEN <<I("commit", 0, 0)>> ELSE <<>>)
+                               \o (IF unlinkEach THEN [i \in DOMAIN s.done |-> I("unlinkloose", s.done[i], 0)] ELSE <<>>)
+                               \o @]
+
+PrePack(c, p) == IF p \in DOMAIN c.pre.packs THEN c.pre.packs[p] ELSE <<>>
+St0(c) == [rows |-> c.pre.idx, bytes |-> [p \in 0..MaxPack |-> SumSz(PrePack(c, p), c.sz)],
+           lens |-> [p \in 0..MaxPack |-> Len(PrePack(c, p))], exists |-> c.pre.exists, known |-> KeysOf(c.pre.idx)]
+
+AddToPackProg(c) == PackSegs(c.ks, c.noholes, St0(c), TRUE, FALSE, c.target, c.sz).ins
+PackAllProg(c) == PackSegs(c.ks, FALSE, St0(c), TRUE, c.perpack, c.target, c.sz).ins
+
+(* import_objects, same hash type (container.py:2058-2290): what the destination already has is filtered out first;
+   the rest arrives in the order the source yields it (ks) and is written in batches that fit the memory budget, an
+   object above the budget alone and at once; one transaction, committed at the very end. *)
+RECURSIVE ImpBatches(_, _, _, _, _)
+ImpBatches(ks, cache, csize, sz, budget) ==
+    IF ks = <<>> THEN (IF cache = <<>> THEN <<>> ELSE <<cache>>)
+    ELSE LET k == Head(ks) IN
+         IF sz[k] > budget THEN <<<<k>>>> \o ImpBatches(Tail(ks), cache, csize, sz, budget)
+         ELSE IF csize + sz[k] > budget
+                 THEN (IF cache = <<>> THEN <<>> ELSE <<cache>>) \o ImpBatches(Tail(ks), <<k>>, sz[k], sz, budget)
+                 ELSE ImpBatches(Tail(ks), Append(cache, k), csize + sz[k], sz, budget)
+RECURSIVE RunBatches(_, _, _, _)
+RunBatches(bs, st, T, sz) ==
+    IF bs = <<>> THEN <<I("commit", 0, 0)>>
+    ELSE LET r == PackSegs(Head(bs), FALSE, st, FALSE, FALSE, T, sz)
+             ins == IF ImportFsyncOnlyLast /\ Len(bs) > 1 THEN SelectSeq(r.ins, LAMBDA n : n.op # "fsync") ELSE r.ins
+         IN ins \o RunBatches(Tail(bs), r.st, T, sz)
+ImportProg(c) ==
+    LET new == SelectSeq(c.ks, LAMBDA k : k \notin KeysOf(c.pre.idx) /\ c.pre.loose[k] # "good")
+    IN RunBatches(ImpBatches(new, <<>>, 0, c.sz, c.budget), St0(c), c.target, c.sz)
 
 CleanProg(pre, order) == [i \in DOMAIN order |-> I("unlinkloose", order[i], 0)]
 
@@ -125,8 +178,9 @@ AddLooseProg(k) == <<I("sbxwrite", k, 0), I("sbxfsync", k, 0), I("rename", k, 0)
 ProgOf(c) ==
     CASE c.op = "repack"  -> RepackProg(c.pre)
       [] c.op = "delete"  -> DeleteProg(c.pre, c.ks)
-      [] c.op = "addpack" -> AddToPackProg(c.pre, c.ks, c.noholes)
-      [] c.op = "pack"    -> PackAllProg(c.pre, c.ks, c.perpack)
+      [] c.op = "addpack" -> AddToPackProg(c)
+      [] c.op = "pack"    -> PackAllProg(c)
+      [] c.op = "import"  -> ImportProg(c)
       [] c.op = "clean"   -> CleanProg(c.pre, c.ks)
       [] c.op = "add"     -> AddLooseProg(c.ks[1])
 
